@@ -285,6 +285,12 @@ pub struct Outcome {
 
 /// Builds and runs one scenario; everything is dropped before the live counters are read.
 pub fn run_scenario(cfg: &NetCfg, scripts: &Value, seed: u64) -> Outcome {
+    run_scenario_stop(cfg, scripts, seed, "complete")
+}
+
+/// `stop`: "complete" (run to the time limit), "never" (built, never started), "events:K" (event-count limit K,
+/// finished with events pending), "manual:K" (started, K events dispatched, dropped without finish)
+pub fn run_scenario_stop(cfg: &NetCfg, scripts: &Value, seed: u64, stop: &str) -> Outcome {
     silence_panics();
     LOG.with(|l| l.borrow_mut().clear());
     NEXT_MSG.with(|n| *n.borrow_mut() = 1);
@@ -324,13 +330,38 @@ pub fn run_scenario(cfg: &NetCfg, scripts: &Value, seed: u64) -> Outcome {
             o2.connect(ct.clone(), None);
             ct.connect(i2, channel(cfg, "2"));
         }
-        let rt = Builder::seeded(seed).quiet().max_time(SimTime::from_duration(Duration::from_nanos(cfg.tick_ns) * cfg.max_t as u32 + Duration::from_nanos(cfg.tick_ns / 2))).build(sim.freeze());
-        rt.run()
+        // a ring of four transit gates (reference cycle among gates, never used for traffic)
+        let (ra, rb, rc, rd) = (sim.gate("a", "ring1"), sim.gate("b", "ring1"), sim.gate("b", "ring2"), sim.gate("a", "ring2"));
+        ra.clone().connect(rb.clone(), None);
+        rb.connect(rc.clone(), channel(cfg, "1"));
+        rc.connect(rd.clone(), None);
+        rd.connect(ra, None);
+        let limit = SimTime::from_duration(Duration::from_nanos(cfg.tick_ns) * cfg.max_t as u32 + Duration::from_nanos(cfg.tick_ns / 2));
+        let k: usize = stop.split(':').nth(1).and_then(|x| x.parse().ok()).unwrap_or(0);
+        if stop == "never" {
+            let rt = Builder::seeded(seed).quiet().max_time(limit).build(sim.freeze());
+            drop(rt);
+            return None;
+        }
+        if stop.starts_with("events") {
+            let rt = Builder::seeded(seed).quiet().max_itr(k).build(sim.freeze());
+            return Some(rt.run());
+        }
+        if stop.starts_with("manual") {
+            let mut rt = Builder::seeded(seed).quiet().max_time(limit).build(sim.freeze());
+            rt.start();
+            rt.dispatch_n_events(k);
+            drop(rt);
+            return None;
+        }
+        let rt = Builder::seeded(seed).quiet().max_time(limit).build(sim.freeze());
+        Some(rt.run())
     }));
     let mut out = Outcome { log: Vec::new(), err: BTreeSet::new(), tend: -1, result_ok: false, live_after_drop: [0; 3], dropped_twice: 0, panicked: false };
     match r {
         Err(_) => out.panicked = true,
-        Ok(res) => {
+        Ok(None) => {}
+        Ok(Some(res)) => {
             match &res {
                 Ok((_, t, _)) => {
                     out.result_ok = true;
@@ -459,6 +490,23 @@ pub fn replay(args: &[String]) {
             return;
         }
         s.checks += out.log.len() as u64 + 3;
+        // C20: the same scenario dropped at other stopping points; only the object accounting is compared
+        if let Some(stops) = cfgv["stops"].as_array() {
+            for st in stops {
+                let st = st.as_str().unwrap();
+                let o = run_scenario_stop(&cfg, &v["scripts"], 1 + li as u64, st);
+                s.replays += 1;
+                if o.panicked {
+                    s.mismatch(json!({"field": format!("simulation stopped at '{st}': building / running / dropping panicked"), "behaviour": v, "cfg": cfgv, "stop": st}));
+                } else if o.live_after_drop != [0; 3] || o.dropped_twice != 0 {
+                    s.mismatch(json!({"field": format!("objects alive after a simulation stopped at '{}' was dropped [modules, elements, message bodies] / double drops", st.split(':').next().unwrap()),
+                                      "got": o.live_after_drop, "double_drops": o.dropped_twice, "behaviour": v, "cfg": cfgv, "stop": st}));
+                } else {
+                    s.checks += 1;
+                    s.bump("stopping_points_checked", 1);
+                }
+            }
+        }
     });
     s.print();
 }
